@@ -105,6 +105,7 @@ OnCm(ns, cfg, prio, sa, da, d, clk) ==
            IN IF ~Has(ns.snd, key) THEN R(ns, << TxAbort(da, sa, R_RESOURCES, pgn) >>)
               ELSE LET b == Get(ns.snd, key) IN
                    IF n = 0 THEN R(Wake([ns EXCEPT !.snd = Put(@, [b EXCEPT !.dl = clk + Th, !.act = clk])]), <<>>)
+                   ELSE IF b.next >= b.total THEN R(ns, <<>>)     \* everything sent (waiting for EOM_ACK): nothing to clear
                    ELSE LET n1 == Min2(n, b.total)
                             n2 == IF nextpk + n1 > b.total THEN b.total - nextpk ELSE n1
                             b2 == [b EXCEPT !.waitOn = b.next + n2 - 1, !.st = SENDING_IN_CTS, !.dl = clk, !.act = clk]
